@@ -9,9 +9,9 @@ res() { echo "$1"; }
 out=""
 if ! git apply --check $M/patch.diff 2>/dev/null; then echo "RESULT $ID $M patch-does-not-apply"; cd /; git -C /repo worktree remove --force $WT; exit 1; fi
 mkdir -p tests; cp $M/demo.rs tests/demo_$ID.rs
-demo_clean=$(cargo test --offline $REL --test demo_$ID 2>&1 | grep -E "^test result" | head -1)
+demo_clean=$(cargo test --offline $REL $CONFIRM_ARGS --test demo_$ID 2>&1 | grep -E "^test result" | head -1)
 git apply $M/patch.diff
-demo_mut=$(cargo test --offline $REL --test demo_$ID 2>&1 | grep -E "^test result|error(\[|:)" | head -1)
+demo_mut=$(cargo test --offline $REL $CONFIRM_ARGS --test demo_$ID 2>&1 | grep -E "^test result|error(\[|:)" | head -1)
 rm -rf tests
 suite=$(cargo test --workspace --offline 2>&1 | grep -E "^test result" | tr '\n' ' ')
 echo "RESULT $ID $M | demo clean: $demo_clean | demo mutated: $demo_mut | suite mutated: $suite"
